@@ -250,3 +250,21 @@ def run(A, R: Report, thorough: bool):
             body_ok = m[0] == 'map' and m[2][0] == 'cat' and any(p[0] == 'lit' and p[1] for p in m[2][1]) and all(any(v in dag_nodes(p) for p in m[2][1]) for v in m[1])
             R.check(body_ok, 'R03.5', 'TaskParameterConfig.get_name_for_persistence: input binding', key_of('input-binding', pretty(m)[:120]), 'name <literal> key for every input',
                     'inputs are not rendered as `name <separator> key` (an input wiring change can keep the key)', witness=[pretty(m)[:200]], where=where(K.f_key))
+
+    # ---- R03.6 the display repr of a parameter object is its persistence repr (containers render their elements with it)
+    po = A.cls('ParameterObject')
+    R.rule('R03.6', 'ParameterObject.__repr__ returns self.repr() unchanged', floor=1)
+    for ci in po.all_subclasses():
+        fr_ = ci.methods.get('__repr__')
+        if fr_ is None:
+            continue
+        t = A.sym.func_term(fr_, ('inst', ci))
+        rep = ci.lookup('repr')
+        want = A.sym.func_term(rep, ('inst', ci)) if rep is not None and not rep.is_abstract else None
+        same = (t[0] == 'user' and str(t[1]).endswith('.repr') and t[2] == ('self',)) or (t[0] in ('dispatch', 'rec', 'ref') and str(t[1]).endswith('repr')) or (want is not None and t == want)
+        R.check(same, 'R03.6', f'{ci.short}.__repr__', key_of('display-repr', pretty(t)[:100]), '__repr__ == repr()',
+                f'`{ci.short}.__repr__` is `{pretty(t)[:160]}`, not the persistence repr: builtin repr() of a container argument renders nested parameter objects through __repr__, so objects that differ where the display form is shortened / decorated share one key',
+                where=where(fr_))
+    from .purity import check_key_stateless
+    check_key_stateless(A, R, 'R03.7')
+
